@@ -284,11 +284,48 @@ def c04f(ctx):
                 ctx.fail(o, a, "%s writes InputSession.comitted (only commit() may)" % b.name)
 
 
+def c04h(ctx):
+    """A block driven through `.guarded()` is finished by a detached task when its owner is dropped (Guard::drop spawns it):
+    it outlives the query future and with it every phase guard that future held.  A reader-phase block that goes on writing
+    node state after that must therefore OWN a clone of the ActiveComputationGuard (the shared half of the phase lock) -
+    a borrowed CallerInformation does not survive the drop.  Otherwise an input session can begin while the tail still
+    runs: the tail then erases the session's dirty marks and stores an old value under the old epoch (D13)."""
+    prog = ctx.prog
+    o = ctx.ob("C04.h", "reader-phase/guarded-tail-owns-the-phase-guard", "K3+K5",
+               "every guarded() block outside the input session owns an ActiveComputationGuard (a local of that type inside the block's coroutine)")
+    sites = [s for s in prog.callers_of(r"engine::guard::GuardExt::guarded$") if "input_session" not in (s.body.file or "")]
+    o.sites = len(sites)
+    if len(sites) < 3:
+        ctx.fail(o, "(program)", "expected >= 3 reader-phase guarded() blocks (execute_query, computing_lock_to_clean_query, done_backward_projection), found %d" % len(sites))
+        return
+    for s in sites:
+        b = ctx.touch(s.body)
+        child = None
+        for x in df.origins_of_operand(b, s.node["args"][0]):
+            if x.kind == "agg" and x.site.node["rv"].get("ak") == "coroutine":
+                child = prog.bodies.get(x.site.node["rv"].get("def"))
+        if child is None:
+            ctx.fail(o, s, "%s: the future handed to guarded() is not an async block of this function - cannot see what it owns" % b.name)
+            continue
+        ctx.touch(child)
+        owned = [l["ty"] for l in child.locals if "ActiveComputationGuard" in l["ty"] and not l["ty"].lstrip().startswith("&")]
+        if not owned:
+            ctx.fail(o, s, "%s: the guarded block owns no ActiveComputationGuard: when the reader's future is dropped the block is finished by a detached task that holds no "
+                     "phase lock, so the next input session runs concurrently with it - the tail removes the session's dirty marks and publishes a value of the old epoch" % b.name)
+
+
 def run(ctx):
     ctx.run_clause("C04.g", c04g)
+    ctx.run_clause("C04.h", c04h)
     ctx.run_clause("C04.f", c04f)
     ctx.run_clause("C04.a", c04a)
     ctx.run_clause("C04.b", c04b)
     ctx.run_clause("C04.c", c04c)
     ctx.run_clause("C04.d", c04d)
     ctx.run_clause("C04.e", c04e)
+    # "a session is atomic": its dirty propagation is part of the session and must start from an empty visited set - entries
+    # left over from the reader phase make it skip nodes, and one engine then answers from two input snapshots (C01.p as C04.i)
+    from . import C01
+    ctx.alias = {"C01.p": "C04.i"}
+    ctx.run_clause("C04.i", C01.c01p)
+    ctx.alias = {}
